@@ -2,6 +2,7 @@ from yowsup.layers.network.dispatcher.dispatcher import YowConnectionDispatcher
 import asyncore
 import logging
 import socket
+import threading
 import traceback
 
 logger = logging.getLogger(__name__)
@@ -12,11 +13,15 @@ class AsyncoreConnectionDispatcher(YowConnectionDispatcher, asyncore.dispatcher_
         super(AsyncoreConnectionDispatcher, self).__init__(connectionCallbacks)
         asyncore.dispatcher_with_send.__init__(self)
         self._connected = False
+        # out_buffer is written by whoever sends and by the event loop's thread (which writes pending output whenever the socket
+        # is writable): unsynchronised, the two could put the same bytes on the socket twice or lose what was just appended
+        self._send_lock = threading.RLock()
 
     def sendData(self, data):
         if self._connected:
-            self.out_buffer = self.out_buffer + data
-            self.initiate_send()
+            with self._send_lock:
+                self.out_buffer = self.out_buffer + data
+                self.initiate_send()
         else:
             logger.warn("Attempted to send %d bytes while still not connected" % len(data))
 
@@ -26,6 +31,10 @@ class AsyncoreConnectionDispatcher(YowConnectionDispatcher, asyncore.dispatcher_
         self.create_socket(socket.AF_INET, socket.SOCK_STREAM)
         asyncore.dispatcher_with_send.connect(self, host)
         asyncore.loop(timeout=1)
+
+    def handle_write(self):
+        with self._send_lock:
+            self.initiate_send()
 
     def handle_connect(self):
         logger.debug("handle_connect")
